@@ -1,0 +1,67 @@
+//go:build verif
+
+package storage
+
+// Verification hooks, compiled only with the "verif" build tag. Each hook is
+// a function variable a verification harness may set; nil means "do nothing".
+
+var (
+	verifHookAutoFlush   func(bool) bool
+	verifHookStoreOpened func(*fileStore)
+	verifHookStoreClosed func(*fileStore)
+	verifHookIO          func(f *fileStore, kind string, off int64, b []byte)
+	verifHookWalIO       func(w *wal, kind string, b []byte)
+	verifHookIsFull      func(n *btreeNode) (bool, bool)
+	verifHookEv          func(f *fileStore, kind string)
+	verifHookDirty       func(n *btreeNode)
+)
+
+func verifAutoFlush(b bool) bool {
+	if verifHookAutoFlush != nil {
+		return verifHookAutoFlush(b)
+	}
+	return b
+}
+
+func verifStoreOpened(f *fileStore) {
+	if verifHookStoreOpened != nil {
+		verifHookStoreOpened(f)
+	}
+}
+
+func verifStoreClosed(f *fileStore) {
+	if verifHookStoreClosed != nil {
+		verifHookStoreClosed(f)
+	}
+}
+
+func verifIO(f *fileStore, kind string, off int64, b []byte) {
+	if verifHookIO != nil {
+		verifHookIO(f, kind, off, b)
+	}
+}
+
+func verifWalIO(w *wal, kind string, b []byte) {
+	if verifHookWalIO != nil {
+		verifHookWalIO(w, kind, b)
+	}
+}
+
+func verifIsFull(n *btreeNode) (bool, bool) {
+	if verifHookIsFull != nil {
+		return verifHookIsFull(n)
+	}
+	return false, false
+}
+
+func verifEv(f *fileStore, kind string) {
+	if verifHookEv != nil {
+		verifHookEv(f, kind)
+	}
+}
+
+func verifDirty(n *btreeNode) {
+	if verifHookDirty != nil {
+		verifHookDirty(n)
+	}
+}
